@@ -111,9 +111,13 @@ def parse_constraints(constraints_info: List[Dict[str, Any]]) -> List[Constraint
 def parse_ast_constraint(ctc_info: Dict[str, Any]) -> Node:
     ctc_type = ctc_info['type']
     ctc_operands = ctc_info['operands']
+    if not isinstance(ctc_operands, list):
+        raise ParsingException(f'Invalid constraint in JSON: {ctc_info}')
     node = None
     if ctc_type == JSONFeatureType.FEATURE.value:
         feature_name = ctc_info['operands'][0]
+        if feature_name is None or isinstance(feature_name, (list, dict)):
+            raise ParsingException(f'Invalid term in JSON: {ctc_info}')
         node = Node(feature_name)
     elif ctc_type == ASTOperation.NOT.value:
         left = parse_ast_constraint(ctc_operands[0])
